@@ -70,6 +70,10 @@ namespace sim
 				{
 					++last_executed;
 					aux::verif_step_hook(0);
+					// work posted by the hook after the last ready handler has
+					// run must execute in this round, as it would if a
+					// handler had posted it
+					m_service.restart();
 				}
 			}
 			else
